@@ -152,6 +152,38 @@ def drive_estimator(seed):
     return bad, events
 
 
+def drive_symmetry(seed):
+    """3-receptor gamuts with more sources than receptors (parallelogram facets, coplanar up to round-off): the default
+    engine must sample them uniformly; tested through the central symmetry of the zonotope (no region volumes needed)"""
+    dreye = import_dreye()
+    events, bad = [], []
+    systems = [[[3, 1, 0, 1, 2], [1, 2, 1, 0, 1], [0, 1, 3, 2, 1]],
+               [[2, 1, 0, 1, 1, 3], [1, 3, 1, 0, 2, 0], [0, 1, 2, 3, 1, 1]],
+               [[3, 0, 1, 2, 1], [0, 3, 1, 1, 2], [1, 1, 3, 0, 1]],
+               [[1, 2, 0, 3, 1, 1], [2, 0, 1, 1, 3, 1], [0, 1, 3, 1, 1, 2]]]
+    dirs = np.array([[1, 0, 0], [0, 1, 0], [0, 0, 1], [1, 1, 1], [1, -1, 0], [0, 1, -1], [2, -1, 1]], float)
+    n = 40000
+    for A in systems:
+        n_src = len(A[0])
+        sysd = dict(A=A, D=1, lb=[0] * n_src, ub=[1] * n_src, kk="none", Kn=np.eye(3).astype(int).tolist(), DK=1, bk="none", bl=[0, 0, 0])
+        w = dict(op="sample_in_gamut", d=3, engine="None", n=n, uniform=True, nsrc=n_src, symmetry=True)
+        try:
+            est = dsys.make_estimator(dreye, sysd)
+            X = np.asarray(est.sample_in_gamut(n, seed=seed), float)
+            c = np.array(A, float) @ (np.ones(n_src) / 2)
+            half = np.abs(np.array(A, float).T @ dirs.T).sum(0) / 2          # support of the zonotope about its centre
+            plus, minus = [], []
+            for u, h in zip(dirs, half):
+                p = (X - c) @ u
+                for frac in (0.0, 0.3, 0.6):
+                    plus.append(int(np.sum(p > frac * h)))
+                    minus.append(int(np.sum(p < -frac * h)))
+            events.append(dict(ev="sym", n=n, plus=plus, minus=minus, meta=w))
+        except Exception as ex:
+            bad.append(("C13.no-error", dict(exc=type(ex).__name__, **w), None, repr(ex)[:200]))
+    return bad, events
+
+
 def run(ctx):
     thorough = ctx.tier == "thorough"
     res = tlc.run("mc/MC_C13", cfg="mc/MC_C13_quick.cfg", dump=True)
@@ -166,6 +198,10 @@ def run(ctx):
         for clause, where, exp, obs in bad:
             ctx.violation(clause, where, dict(), exp, obs)
         events += ev
+    bad, ev = drive_symmetry(ctx.seed * 10 + 3)
+    for clause, where, exp, obs in bad:
+        ctx.violation(clause, where, dict(), exp, obs)
+    events += ev
     bad, ev = drive_estimator(ctx.seed * 10 + 1)
     for clause, where, exp, obs in bad:
         ctx.violation(clause, where, dict(), exp, obs)
